@@ -11,6 +11,8 @@ PROP = {
         "Sonic.Props.C02.C02_monitor_accepts_read",
         "Sonic.Props.C02.C02_monitor_accepts_write",
         "Sonic.Props.C02.C02_monitor_accepts_model",
+        "Sonic.Props.C02.C02_accepted_reads_are_the_stream",
+        "Sonic.Props.C02.C02_accepted_writes_are_the_wire",
         "Sonic.Props.C02.readOp_spec",
         "Sonic.Props.C02.writeOp_spec",
     ],
@@ -40,7 +42,7 @@ PROP = {
                                "as a function of per-syscall kernel results; tied to the code through the data clauses of the trace monitor "
                                "(exact bytes and counts of every completion on real TCP connections, FIFOs and adapted net.Conns), and directly by the "
                                "`xfer` component: `readOp`/`writeOp` are executed by `sonicdrv xfer` on the same per-call schedule that a scripted "
-                               "io.ReadWriter behind a real AsyncAdapter (async_adapter.go) or a fed FIFO behind sonic.Open (file.go) was given, and "
+                               "io.ReadWriter behind a real AsyncAdapter (async_adapter.go) or a fed FIFO / a drained one-page pipe behind sonic.Open (file.go, both directions) was given, and "
                                "result class, count and bytes of every completion must be equal (Sonic/Model/XferStep.lean)"],
     "assumptions": [
         "the kernel delivers a TCP/pipe byte stream in order (FIFO); which bytes a single syscall moves is arbitrary (the theorem's schedule)",
